@@ -279,7 +279,7 @@ class CacheMachine(RuleBasedStateMachine):
         self._do({"op": "peek", "dir": d, "form": form})
         self._do({"op": "list", "dir": d, "form": lf})
 
-    @rule(dt=st.sampled_from([1, 30, 200, 450, 600, 990, 1010, 2500]))
+    @rule(dt=st.sampled_from([1, 30, 200, 450, 600, 990, 1010, 2500, 86400 - 20, 86400 + 30, 2 * 86400 + 500, 7 * 86400 + 5]))
     def advance(self, dt):
         self._do({"op": "advance", "dt": dt})
 
@@ -296,7 +296,7 @@ class CacheMachine(RuleBasedStateMachine):
         self._do({"op": "list", "dir": d, "form": form})
 
     @rule(d=st.sampled_from(DIRS), f1=st.sampled_from(FORMS), f2=st.sampled_from(FORMS), f3=st.sampled_from(FORMS),
-          dt1=st.sampled_from([300, 600, 900]), dt2=st.sampled_from([200, 600, 990]), name=name_st)
+          dt1=st.sampled_from([300, 600, 900, 86400 + 30]), dt2=st.sampled_from([200, 600, 990, 3 * 86400 + 100]), name=name_st)
     def age_cycle(self, d, f1, f2, f3, dt1, dt2, name):
         """write - age - (mutate) - read - age - read: the shape on which 'a hit refreshes the age' would show"""
         self._do({"op": "list", "dir": d, "form": f1})
